@@ -432,16 +432,48 @@ def r5_siblings(ctx, sym):
                               "reported location is not taken from one of the counted occurrences",
                               "feedback line does not point at an occurrence", construct=norm(c))
     ctx.floor('R5', 'ensure/prevent sibling pairs', pairs, 5)
-    # import siblings: prevent = has_import, ensure = not has_import
+    # import siblings, executed abstractly on a model program: ensure_import fires exactly when the queried name is
+    # not the module of an `import M [as A]` / `from M import ...` statement, prevent_import exactly when it is
+    from .. import symexec
+    from ..fdeval import Raised
     e = mod.func('ensure_import.condition')
     p = mod.func('prevent_import.condition')
-    er = [n for n in body_walk(e) if isinstance(n, ast.Return)][-1].value
-    pr = [n for n in body_walk(p) if isinstance(n, ast.Return)][-1].value
-    ok = isinstance(er, ast.UnaryOp) and isinstance(er.op, ast.Not) and norm(er.operand) == norm(pr) \
-        and isinstance(pr, ast.Call) and call_name(pr) == 'has_import'
-    ctx.check(ok, 'R5', 'ensure_import/prevent_import', mod, e,
-              "ensure_import/prevent_import are no longer complements over has_import",
-              "a program importing the module", construct=norm(er) + ' / ' + norm(pr))
+    ctx.analysed_function(mod, e)
+    ctx.analysed_function(mod, p)
+    cm = CaitModel(ctx, sym)
+    programs = {
+        'import numpy as np; import json as math; from os import path; import random': (
+            [[('numpy', 'np')], [('json', 'math')], [('random', None)]], ['os']),
+        'import math, sys as system': ([[('math', None), ('sys', 'system')]], []),
+        'x = 1': ([], []),
+    }
+    for text, (imports, froms) in programs.items():
+        modules = {m for names in imports for m, _ in names} | set(froms)
+        import_nodes = [cm.ast('Import', names=[cm.ast('alias', name=m, asname=a) for m, a in names])
+                        for names in imports]
+        from_nodes = [cm.ast('ImportFrom', module=m, names=[cm.ast('alias', name='path', asname=None)], level=0)
+                      for m in froms]
+        root = cm.ast('Module', body=import_nodes + from_nodes).attrs['cait_node']
+
+        def find_all(kind, *a, **k):
+            return [n.attrs['cait_node'] for n in (import_nodes if kind == 'Import' else
+                                                   from_nodes if kind == 'ImportFrom' else [])]
+        root.attrs['method:find_all'] = find_all
+        for query in ('numpy', 'np', 'json', 'math', 'os', 'path', 'random', 'sys', 'system', 'turtle'):
+            for cls_name, fn, fires_when_imported in (('ensure_import', e, False), ('prevent_import', p, True)):
+                me = symexec.self_obj(mod, cls_name, fields={'name': query, 'root': root})
+                fd = cm.configure(symexec.new_fd(sym, mod, extra={'ast.AST': 'ast.AST'}))
+                got, raised = symexec.run(fd, fn, [], bound_self=me, what=cls_name + '.condition')
+                want = (query in modules) == fires_when_imported
+                outcome = ('raises %s' % raised.kind) if raised is not None else truth(got)
+                ctx.check(raised is None and truth(got) is want, 'R5', '%s[%s in %r]' % (cls_name, query, text),
+                          mod, fn,
+                          "%s(%r) on the program `%s` %s; the program %s the module %r, so it must %s" % (
+                              cls_name, query, text, 'fires' if outcome is True else
+                              'stays silent' if outcome is False else outcome,
+                              'imports' if query in modules else 'does not import', query,
+                              'fire' if want else 'stay silent'),
+                          "student program `%s` with %s(%r)" % (text, cls_name, query))
 
 
 def r6_constant_split(ctx, sym):
